@@ -39,6 +39,9 @@ type Case struct {
 	ReadDelayNS int64    `json:"read_delay_ns"`
 	Version     string   `json:"version"` // netconf
 	Echo        bool     `json:"echo"`    // netconf echo
+	// Exact: operations that take channel operation options use exact input matching (a different
+	// read-until loop than the default fuzzy one)
+	Exact bool `json:"exact,omitempty"`
 }
 
 var ops = []string{"getprompt", "cmd", "cmds", "interactive", "acquire", "acquire-auth", "ncmd", "nconfigs", "nc-open", "nc-get", "nc-lock", "login-telnet", "login-ssh"}
@@ -64,6 +67,7 @@ func gen(t *rapid.T) Case {
 		ReadDelayNS: int64(500 * time.Microsecond),
 		Version:     rapid.SampledFrom([]string{"1.0", "1.1"}).Draw(t, "version"),
 		Echo:        rapid.Bool().Draw(t, "ncEcho"),
+		Exact:       rapid.Bool().Draw(t, "exact"),
 	}
 
 	for i := 0; i < rapid.IntRange(0, 3).Draw(t, "nOut"); i++ {
@@ -98,6 +102,7 @@ type scenario struct {
 	inputClean func() bool // true once the command's return reached the device
 	lines      func() []string
 	open       bool // the operation is Open itself
+	opts []util.Option // operation options for loss runs (input matching mode)
 	// needed, if > 0, is the number of bytes of the exchange the operation needs (default: all but
 	// the trailing ones)
 	needed int
@@ -199,7 +204,7 @@ func build(c *Case) (*scenario, error) {
 		s.lines = dev.LineStrings
 		s.inputClean = func() bool { return dev.Partial() == "" }
 		s.next = func() (string, error) {
-			r, e := d.SendCommand(c.NextCmd)
+			r, e := d.SendCommand(c.NextCmd, exactOpt(c)...)
 			if e != nil {
 				return "", e
 			}
@@ -278,7 +283,7 @@ func build(c *Case) (*scenario, error) {
 		s.trailing = 1
 		s.lines = dev.LineStrings
 		s.next = func() (string, error) {
-			r, e := d.SendCommand(c.NextCmd)
+			r, e := d.SendCommand(c.NextCmd, exactOpt(c)...)
 			if e != nil {
 				return "", e
 			}
@@ -444,6 +449,14 @@ func build(c *Case) (*scenario, error) {
 	return s, nil
 }
 
+func exactOpt(c *Case) []util.Option {
+	if c.Exact {
+		return []util.Option{opoptions.WithExactMatchInput()}
+	}
+
+	return nil
+}
+
 // dryRun learns the length of the exchange.
 func dryRun(c *Case) (length int, err error) {
 	s, err := build(c)
@@ -461,7 +474,7 @@ func dryRun(c *Case) (length int, err error) {
 
 	start := s.pipe.Produced()
 
-	res, err := s.op(nil)
+	res, err := s.op(exactOpt(c))
 	if err != nil {
 		return 0, fmt.Errorf("unstalled operation failed: %w", err)
 	}
@@ -539,6 +552,10 @@ func run(c Case) ev.Verdict {
 		perOp = []util.Option{opoptions.WithTimeoutOps(opLarger)}
 	case "op-zero":
 		perOp = []util.Option{opoptions.WithTimeoutOps(0)}
+	}
+
+	if c.Exact {
+		perOp = append(perOp, opoptions.WithExactMatchInput())
 	}
 
 	type outcome struct {
@@ -738,6 +755,7 @@ func enumerateK(t *testing.T) {
 
 					c := base
 					c.KAbs = k
+					c.Exact = k%2 == 1 // alternate the input matching mode over the enumeration
 					v := stallProp.Exec(t, c)
 					ran++
 					ev.RecordExternal("all-k", c, v)
